@@ -10,7 +10,34 @@ BASES = ["class Foo", "struct S { int a; }", "struct S", "namespace ns", "enum E
 JUNK = [" garbage", " )", "; int b;", " {", " )))", " ;;", " ,", " 42", " +", " ]"]
 
 
+class Hang(BaseException):
+    pass
+
+
+def _alarm(signum, frame):
+    raise Hang()
+
+
+LIMIT = 10.0        # seconds for ONE declaration of < 200 characters (normal: well under a millisecond)
+
+
 def run(decl):
+    import signal
+    from shroud import declast, typemap, ast
+    typemap.initialize()
+    lib = ast.LibraryNode()
+    old = signal.signal(signal.SIGALRM, _alarm)
+    signal.setitimer(signal.ITIMER_REAL, LIMIT)
+    try:
+        return run_unguarded(decl)
+    except Hang:
+        return "hang", "no answer within %.0f s" % LIMIT
+    finally:
+        signal.setitimer(signal.ITIMER_REAL, 0)
+        signal.signal(signal.SIGALRM, old)
+
+
+def run_unguarded(decl):
     from shroud import declast, typemap, ast
     typemap.initialize()
     lib = ast.LibraryNode()
@@ -28,6 +55,8 @@ def run(decl):
 def check(inp):
     base, junk = inp["base"], inp["junk"]
     r0, d0 = run(base)
+    if r0 == "hang":
+        return "the parser hangs on %r (%s)" % (base, d0)
     if r0 == "internal":
         return "internal exception for %r: %s" % (base, d0)
     if r0 != "ok":
@@ -35,6 +64,8 @@ def check(inp):
     if not junk:
         return None
     r1, d1 = run(base + junk)
+    if r1 == "hang":
+        return "the parser hangs on %r (%s)" % (base + junk, d1)
     if r1 == "internal":
         return "internal exception for %r: %s" % (base + junk, d1)
     if r1 == "ok":
@@ -42,7 +73,16 @@ def check(inp):
     return None
 
 
+EDGE = ["", " ", "\t\n", ";", "()", "+", "int", "int f(", "void f(int a = ", "void f(const char *s = \"abc)",
+        "void setTitle(const char *title = \"Temperature at the outflow boundary [K])",
+        "void setUnit(const char *unit = 'degrees Kelvin at the outflow boundary, not Celsius)",
+        "void f(const char *s = \"" + "x" * 60, "void f(int a +name('" + "y" * 60 + ")",
+        "void f(int a +dimension(" + "(" * 40, "void f(int a" + " " * 120 + ")", "int " + "*" * 80 + "p", "a" * 150]
+
+
 def candidates(seed, around=None):
+    for e in EDGE:
+        yield {"base": e, "junk": "", "base_may_fail": True}
     for b in BASES:
         yield {"base": b, "junk": ""}
         for j in JUNK:
